@@ -157,17 +157,9 @@ def families(tier, seed):
 
 
 def _twin_line_plane_parallel():
-    """mutant: parallel(Line, Plane) tests the direction against the normal with parallel instead of orthogonal"""
-    import sys as _sys
-    an = _sys.modules['Geometry3D.calc.angle']
-    orig = an.parallel
-
-    def f(a, b):
-        if isinstance(a, Line) and isinstance(b, Plane):
-            return a.dv.parallel(b.n)
-        return orig(a, b)
-    an.parallel = f
-    G.parallel = f
+    """mutant: parallel(Line, Plane) answers orthogonal(Line, Plane)"""
+    orig_p, orig_o = G.parallel, G.orthogonal
+    G.parallel = lambda a, b: orig_o(a, b) if (isinstance(a, Line) and isinstance(b, Plane)) else orig_p(a, b)
 
 
 TWINS = {'parallel(Line, Plane) confuses normal and plane': (r'^Line-Plane/kt/axis/function$', _twin_line_plane_parallel)}
